@@ -589,6 +589,22 @@ func runTwoPiece(c twoPieceCase) (impl string, err error) {
 	return strings.Join(toks, " ") + fmt.Sprintf(" pos=%d", p.GetStreamPos()), nil
 }
 
+// modelLines keeps the model's line tokens (every eof is a poll that found nothing new) and its final position
+func modelLines(ans string) string {
+	var toks []string
+	pos := ""
+	for _, t := range strings.Fields(ans) {
+		switch {
+		case t == "eof" || strings.HasPrefix(t, "closed") || strings.HasPrefix(t, "oof"):
+		case strings.HasPrefix(t, "pos="):
+			pos = t
+		default:
+			toks = append(toks, t)
+		}
+	}
+	return strings.TrimSpace(strings.Join(toks, " ") + " " + pos)
+}
+
 func sectionTwoPiece(rng *vh.Rng) {
 	sec := res.Section("twopiece", "unit-correspondence",
 		"the real pure/text parsers on a real file whose last line is written in two pieces: the reader sees the first piece at EOF and pauses (200 ms); the continuation (with the newline) is appended 20-80 ms later, before the next poll; the record's payload bytes and the position against the model (lr 64 0 <first+partial> E <rest>) and the SPEC (record = the file's bytes of that line). The unchanged code is correct whatever the timing; only the power to see an aliasing defect depends on the continuation arriving within the pause. non-trivial = every case")
@@ -648,8 +664,7 @@ func sectionTwoPiece(rng *vh.Rng) {
 		eq := true
 		model := ""
 		if answers != nil {
-			model = modelUpToEOF(answers[i], 0)
-			model = strings.Replace(model, " eof pos=", " pos=", 1)
+			model = modelLines(answers[i])
 			if model != impls[i] {
 				eq = false
 				res.Mismatch(vh.Mismatch{Section: "twopiece", Function: "parser.NextRecord on a line appended in two pieces (" + c.Format + ")", Input: c, Impl: impls[i], Model: model})
